@@ -326,6 +326,34 @@ OPS = {
 }
 
 
+def tree_digest(root):
+    """sha256 over the python sources of <root>/selfies (path + content)"""
+    import hashlib
+    h = hashlib.sha256()
+    base = os.path.join(root, "selfies")
+    for dp, dn, fs in sorted(os.walk(base)):
+        dn.sort()
+        for f in sorted(fs):
+            if f.endswith(".py"):
+                p_ = os.path.join(dp, f)
+                h.update(os.path.relpath(p_, root).encode())
+                with open(p_, "rb") as fh:
+                    h.update(fh.read())
+    return h.hexdigest()
+
+
+def on_confirmed_tree():
+    """the operators were confirmed (each fires its rule) against the tree whose digest is recorded in selftest/baseline.json; on
+    any other tree an operator's edit may land in code it was not written for"""
+    import json
+    p_ = os.path.join(os.path.dirname(os.path.abspath(__file__)), "baseline.json")
+    try:
+        with open(p_) as fh:
+            return json.load(fh).get("selfies_sha256") == tree_digest(REPO)
+    except (OSError, ValueError):
+        return False
+
+
 def _apply(root, edits):
     for rel, old, new in edits:
         p = os.path.join(root, rel)
@@ -402,6 +430,8 @@ def validate(pid, rep, seed):
     caught = app = bs = ba = 0
     problems = []
     unanalysable = []
+    unconfirmed = []
+    confirmed = on_confirmed_tree()
     detail = []
     for o, status, msg, rules in results:
         detail.append({"operator": o["name"], "expect": o["expect"], "outcome": status, "rules": rules, "note": msg})
@@ -417,14 +447,23 @@ def validate(pid, rep, seed):
             ok = status == "fired" and (not o["rules"] or any(any(r == x or r.startswith(x) for x in o["rules"]) for r in rules))
             if ok:
                 caught += 1
-            else:
+            elif confirmed:
                 problems.append("seeded break '%s' not caught (outcome %s %s %s)" % (o["name"], status, rules, msg))
+            else:
+                # not the tree the operators were confirmed on: the same text edit need not break the property here
+                unconfirmed.append("%s (%s %s)" % (o["name"], status, rules))
         else:
             ba += 1
             if status == "silent":
                 bs += 1
             else:
                 problems.append("benign twin '%s' raised an alarm (%s %s %s)" % (o["name"], status, rules, msg))
+    if unconfirmed:
+        rep.note("tree differs from the one the self-validation operators were confirmed on; %d operator(s) applied but did not fire "
+                 "their rule here (no verdict): %s" % (len(unconfirmed), "; ".join(unconfirmed[:5])))
+        if not caught:
+            problems.append("no seeded break of this property is caught on this (changed) tree: %s" % "; ".join(unconfirmed[:4]))
+    rep.analysed["selfval_confirmed_tree"] = confirmed
     if unanalysable and not caught:
         problems.append("no seeded break could be demonstrated: %d operator variant(s) are not analysable (%s) and none fired"
                         % (len(unanalysable), ", ".join(unanalysable[:4])))
